@@ -396,6 +396,7 @@ def run_param(case):
                 for l in c16.LEAVES:
                     trees.append((op, t1, l))
                     trees.append((op, l, t1))
+    trees = trees + c16.twin_trees()  # two different time-dependent leaves with identical keyword arguments
     trees = [t for i, t in enumerate(trees) if i % case["nchunk"] == case["chunk"] and c16.valid(t)]
     args = c16.ARGS[1]
     for tree in trees:
